@@ -40,7 +40,7 @@ where
                             Ok(part) => r.merge(part),
                             Err(_) => {
                                 let msg = crate::take_panic_msg();
-                                if msg.contains("/repo/src/") || msg.contains("memchr-verif-copy") {
+                                if crate::panic_is_in_crate(&msg) {
                                     r.violation(crate::Violation {
                                         class: "panic".into(),
                                         key: lo,
